@@ -1,7 +1,7 @@
 // ================= trusted prelude: redb tables as ghost maps (A-redb) =================
 // A table is a finite map ordered by the tuple order of its key type; get/insert/remove are map operations;
 // range(b) yields exactly the rows within b ascending; retain_in / extract_from_if remove exactly the rows in b
-// for which the predicate holds. Transactions, commit and durability are not modelled. On an Err result of a
+// for which the predicate holds. A commit is modelled as a ghost snapshot of the contents (`Store::committed`); durability itself (redb) is trusted. On an Err result of a
 // single table operation the table is assumed unchanged.
 
 /// redb::StorageError / TableError / CommitError: opaque, convertible into anyhow::Error
@@ -294,28 +294,58 @@ pub struct Tables {
     pub authors: AuthorsTbl,
 }
 
-/// `Store`: the tables of the current write transaction plus the set of open replicas.
+/// contents of all tables: what a commit makes durable
+pub struct TablesV {
+    pub records: Map<RecId, RecVal>,
+    pub records_by_key: Set<ByKeyId>,
+    pub namespaces: Map<Seq<u8>, (u8, Seq<u8>)>,
+    pub latest_per_author: Map<LatestKey, LatestVal>,
+    pub namespace_peers: Map<Seq<u8>, Set<(u64, Seq<u8>)>>,
+    pub download_policy: Map<Seq<u8>, Seq<u8>>,
+    pub authors: Map<Seq<u8>, Seq<u8>>,
+}
+pub open spec fn tv(t: Tables) -> TablesV {
+    TablesV { records: t.records@, records_by_key: t.records_by_key@, namespaces: t.namespaces@, latest_per_author: t.latest_per_author@,
+              namespace_peers: t.namespace_peers@, download_policy: t.download_policy@, authors: t.authors@ }
+}
+
+/// `Store`: the tables of the current write transaction plus the set of open replicas, and (ghost) the contents made durable by
+/// the last commit - what a store reopened after a crash shows (atomicity of a redb commit: trusted, A-redb).
 /// `modify(f)` (src/store/fs.rs) opens/reuses the write transaction - which may fail before `f` runs - and then runs
 /// `f` exactly once on the tables, returning its result (rule R4 inlines it as `modify_begin()?; let tables = tables_mut(); ..`).
+/// Opening/reusing the transaction in `modify` and `tables` may first commit it when it is older than MAX_COMMIT_DELAY: the clock
+/// is not an input, so the shells allow the commit at every such access (`commit_step`); `modify_continue` never commits.
+/// These three shells carry the contracts proved on the real `tables`, `modify`, `modify_continue`, `modify_impl` in unit U-tx.
 pub struct Store {
     pub tables: Tables,
     pub open_replicas: OpenSet,
+    pub committed: Ghost<TablesV>,
 }
+
+/// same live contents (tables of the current transaction, open replicas)
+pub open spec fn same_data(a: Store, b: Store) -> bool { a.tables == b.tables && a.open_replicas == b.open_replicas }
+/// nothing became durable, or exactly the contents at that moment did
+pub open spec fn commit_step(a: Store, b: Store) -> bool { b.committed@ == a.committed@ || b.committed@ == tv(a.tables) }
 
 impl Store {
     #[verifier::external_body]
     pub fn modify_begin(&mut self) -> (r: Result<()>)
+        ensures same_data(*old(self), *final(self)), commit_step(*old(self), *final(self))
+    { unimplemented!() }
+
+    #[verifier::external_body]
+    pub fn modify_continue_begin(&mut self) -> (r: Result<()>)
         ensures *final(self) == *old(self)
     { unimplemented!() }
 
     pub fn tables_mut(&mut self) -> (r: &mut Tables)
-        ensures *r == old(self).tables, final(self).open_replicas == old(self).open_replicas, *final(r) == final(self).tables
+        ensures *r == old(self).tables, final(self).open_replicas == old(self).open_replicas, final(self).committed == old(self).committed, *final(r) == final(self).tables
     { &mut self.tables }
 
     /// `Store::tables()`: read access to the tables of the current transaction (may fail to open it)
     #[verifier::external_body]
     pub fn tables(&mut self) -> (r: Result<&Tables>)
-        ensures *final(self) == *old(self), r is Ok ==> *r->Ok_0 == old(self).tables
+        ensures same_data(*old(self), *final(self)), commit_step(*old(self), *final(self)), r is Ok ==> *r->Ok_0 == old(self).tables
     { unimplemented!() }
 
     pub fn as_mut(&mut self) -> (r: &mut Store)
